@@ -1,9 +1,27 @@
 """C16 — hot/cold repositories keep the hot copy complete at every moment."""
 from tools.krun import Harness
+from tools.extract import Unit, Rw
 
 PROPERTY = "C16"
-UNITS = []
-PRELUDE = ["lemmas.rs"]   # Verus lemma over the contracts (no code units)
+PRELUDE = ["../common/base.rs", "lemmas.rs", "config_stubs.rs"]
+CO = "crates/core/src/commands/config.rs"
+R_DISCARD = Rw(r"(?m)^(\s*)_ = ", r"\1let _ = ", regex=True, count=None, why="`_ = e;` -> `let _ = e;`")
+UNITS = [
+    Unit(name="save_config_hot", file=CO, anchor="pub(crate) fn save_config_hot<S>(", ret_name="r",
+         functions=["commands::config::save_config_hot"],
+         rewrites=[R_DISCARD,
+                   Rw("fn save_config_hot<S>(", "fn save_config_hot<K: CryptoKey>(", sig=True, why="Repository<S> -> two-store stub; impl CryptoKey -> named generic"),
+                   Rw("repo: &Repository<S>", "repo: &VRepoHC", sig=True, why="Repository<S> -> two-store stub"),
+                   Rw("key: impl CryptoKey", "key: K", sig=True, why="impl Trait argument -> named generic")],
+         contract="\n    requires repo.wf(),\n    // obligation (implicit): whatever is saved to the hot store is marked is_hot = Some(true)\n"),
+    Unit(name="save_config", file=CO, anchor="pub(crate) fn save_config<S>(", ret_name="r",
+         functions=["commands::config::save_config"],
+         rewrites=[R_DISCARD,
+                   Rw("fn save_config<S>(", "fn save_config<K: CryptoKey>(", sig=True, why="Repository<S> -> two-store stub; impl CryptoKey -> named generic"),
+                   Rw("repo: &Repository<S>", "repo: &VRepoHC", sig=True, why="Repository<S> -> two-store stub"),
+                   Rw("key: impl CryptoKey", "key: K", sig=True, why="impl Trait argument -> named generic")],
+         contract="\n    requires repo.wf(),\n    // obligation (implicit): the cold store's config carries no hot marker; then save_config_hot\n"),
+]
 M = "backend::hotcold::verif_kani::"
 HC = "backend::hotcold::HotColdBackend::"
 KANI = [
